@@ -107,7 +107,10 @@ func (s c06Shape) metadata() *saml.EntityDescriptor {
 			{Attribute: saml.Attribute{Name: "email", FriendlyName: "req-mail", NameFormat: "urn:oasis:names:tc:SAML:2.0:attrname-format:basic"}},
 			{Attribute: saml.Attribute{Name: "first_name", NameFormat: "urn:oasis:names:tc:SAML:2.0:attrname-format:unspecified"}},
 			{Attribute: saml.Attribute{Name: "urn:oid:2.5.4.4", NameFormat: "urn:oasis:names:tc:SAML:2.0:attrname-format:uri"}},
-			{Attribute: saml.Attribute{Name: "uid", NameFormat: "urn:oasis:names:tc:SAML:2.0:attrname-format:basic"}},
+			// (a RequestedAttribute may list the values the SP is interested in: they are the SP's wish, never the user's)
+			{Attribute: saml.Attribute{Name: "uid", NameFormat: "urn:oasis:names:tc:SAML:2.0:attrname-format:basic", Values: []saml.AttributeValue{{Type: "xs:string", Value: "REQUESTED-admin"}, {Type: "xs:string", Value: "REQUESTED-root"}}}},
+			{Attribute: saml.Attribute{Name: "surname", NameFormat: "urn:oasis:names:tc:SAML:2.0:attrname-format:basic", Values: []saml.AttributeValue{{Type: "xs:string", Value: "REQUESTED-surname"}}}},
+			{Attribute: saml.Attribute{Name: "givenName", NameFormat: "urn:oasis:names:tc:SAML:2.0:attrname-format:unspecified", Values: []saml.AttributeValue{{Type: "xs:string", Value: "REQUESTED-given"}}}},
 		}}
 		if s.attrSvc == 2 {
 			as.IsDefault = &tr
